@@ -34,22 +34,33 @@ def roles() -> dict:
     return _roles
 
 
-def code_nodes(form, code=True, quoted=False):
-    """(node, is_code) in document order.  Inside 'x everything is data; inside `x everything is data
-    except what stands under ~ / ~@."""
-    yield form, code
+def code_nodes(form, mode="code"):
+    """(node, is_code) in document order.  Three modes: code; quote ('x in code: everything below is
+    data, a ~ there is inert); template (`x: data, except what stands under ~ / ~@ -- also under a
+    quote written inside the template, '~x being (quote ~x))."""
+    yield form, mode == "code"
     if isinstance(form, L.Wrap):
-        if form.tag == "quote":
-            yield from code_nodes(form.form, False, True)
-        elif form.tag == "syntax-quote":
-            yield from code_nodes(form.form, False, quoted)
-        elif form.tag in ("unquote", "unquote-splicing"):
-            yield from code_nodes(form.form, not quoted, quoted)
+        if mode == "code":
+            nxt = {"quote": "quote", "var": "quote", "syntax-quote": "template"}.get(form.tag, "code")
+        elif mode == "template":
+            nxt = "code" if form.tag in ("unquote", "unquote-splicing") else "template"
         else:
-            yield from code_nodes(form.form, code, quoted)
+            nxt = "quote"
+        yield from code_nodes(form.form, nxt)
         return
-    for ch in form.children():
-        yield from code_nodes(ch, code, quoted)
+    kids = form.children()
+    if mode == "code" and isinstance(form, L.List) and kids and isinstance(kids[0], L.Sym):
+        h = kids[0].val
+        if h in ("quote", "var"):  # the special forms written out
+            for ch in kids:
+                yield from code_nodes(ch, "quote")
+            return
+        if h == "." and len(kids) > 2 and isinstance(kids[2], L.Sym):  # (. obj member args*): a member name
+            for j, ch in enumerate(kids):
+                yield from code_nodes(ch, "quote" if j == 2 else mode)
+            return
+    for ch in kids:
+        yield from code_nodes(ch, mode)
 
 
 def _in_binding_position(sym) -> bool:
